@@ -22,9 +22,16 @@ import GocoinV.Proofs.C02Spec
 import GocoinV.Proofs.C02Legacy
 import GocoinV.Proofs.C02DelSig
 import GocoinV.Proofs.C02Tail
+import GocoinV.Proofs.C02Decode
 namespace GocoinV.Props.C02
 open GocoinV GocoinV.SigHash
 open GocoinV.Wire (Tx TxIn TxOut)
+
+/-- a one-input transaction used by the non-vacuity example of `tail_irrelevant` -/
+def exTx0 : Tx :=
+  { version := 1, lockTime := 0, witness := none,
+    ins := [{ prevHash := List.replicate 32 1, prevIdx := 0, scriptSig := [], sequence := 0xffffffff }],
+    outs := [{ value := 1000, pkScript := [0x51] }] }
 
 /-- Legacy: for every transaction, input index in range, 32-bit hash type and script code that decodes
     into operations, `SignatureHash` double-hashes exactly "the modified copy of the transaction (other
@@ -50,28 +57,48 @@ theorem legacy_defined (tx : Tx) (scriptCode : Bytes) (idx ht : Nat) (hi : idx <
   | none => simp [h] at hp
   | some ops => simp only [this, ↓reduceIte]; split <;> rfl
 
-/-- `tail_irrelevant` (DESIGN §6 C02 (d)), proved against C01's model of gocoin's interpreter
-    (Model/ScriptEval.lean): a script with a decode error ANYWHERE (a truncated push; `ScriptSpec.parse` reports
-    a decode error behind its last well-formed instruction) never evaluates to true — for every stack, flag set,
-    signature version, execution data and EVERY oracle instance (also partial ones), `evalScript` returns
-    false / an oracle request, never `ok`. The script code handed to `SignatureHash` is the executed script from
-    the last executed OP_CODESEPARATOR on (an instruction boundary), so a script code that does not decode — the
-    only place where gocoin's `break` (tail dropped) and the original serializer (part of the tail kept) can
-    produce different preimages, and where `Spec.legacy` is undefined — lies inside a script whose evaluation is
-    already `false`: the difference cannot change a verdict.
-    -- OPEN: `tail_irrelevant` with the decode error expressed by C02's OWN parser (`Spec.SigHash.parse sc = none`)
-    instead of C01's reference parser: needs `Spec.SigHash.nextOp s = none ↔ ScriptSpec.parseOne s = none` (two
-    independently written spec-level decoders; the example below checks them on a truncated push), and the lemma
-    "a decode error in a suffix at an instruction boundary is a decode error of the script". -/
-theorem tail_irrelevant_partial (O : Script.Oracles) (tx : Script.TxCtx) (flags : Nat) (p : Bytes)
-    (stack : Script.Stack) (sv : Script.SigVersion) (ed : Script.ExecData)
-    (h : (ScriptSpec.parse p).2 = true) (s : Script.Stack) :
-    Script.evalScript O tx flags p stack sv ed ≠ .ok s :=
-  Proofs.C02T.evalScript_bad O tx flags p stack sv ed h s
+/-- The two spec-level script decoders agree: C02's own parser (`Spec.SigHash.parse`, the one `Spec.legacy` and
+    `Spec.findAndDelete` are defined with) fails on exactly the scripts for which C01's independently written
+    reference parser (`ScriptSpec.parse`, Spec/Script.lean) reports a decode error. Built on the one-instruction
+    lemma `Spec.SigHash.nextOp s = none ↔ ScriptSpec.parseOne s = none` + "same rest where both succeed"
+    (Proofs/C02Decode.lean: `nextOp_none_iff`, `nextOp_parseOne`). -/
+theorem decoders_agree (s : Bytes) : Spec.SigHash.parse s = none ↔ (ScriptSpec.parse s).2 = true :=
+  Proofs.C02D.parse_none_iff s
 
-/-- non-vacuity: `OP_1 <push of 2 bytes, 1 present>` has a decode error for both spec-level parsers, and gocoin's
-    `SignatureHash` model still returns a digest for it as script code (the tail is dropped) -/
-example : (ScriptSpec.parse [0x51, 0x02, 0x01]).2 = true ∧ Spec.SigHash.parse [0x51, 0x02, 0x01] = none := by decide
+/-- `tail_irrelevant` (DESIGN §6 C02 (d)), proved against C01's model of gocoin's interpreter
+    (Model/ScriptEval.lean) and stated with C02's OWN parser: a script that does not decode in the sense of
+    `Spec.SigHash.parse` (a truncated push anywhere) — i.e. exactly a script on which `Spec.legacy` defines no
+    message — never evaluates to true: for every stack, flag set, signature version, execution data and EVERY
+    oracle instance (also partial ones), `evalScript` returns false / an oracle request, never `ok`.
+    What this does and does not say: it is a statement about the MODEL of the interpreter (C01's, tied to the real
+    interpreter by C01's harness), not about gocoin's `SignatureHash`; that the script code handed to
+    `SignatureHash` is a suffix of the executed script starting at an instruction boundary is C01's model of
+    CHECKSIG / CODESEPARATOR and is covered by the next theorem only in the form "well-formed prefix ++ suffix". -/
+theorem tail_irrelevant (O : Script.Oracles) (tx : Script.TxCtx) (flags : Nat) (p : Bytes)
+    (stack : Script.Stack) (sv : Script.SigVersion) (ed : Script.ExecData)
+    (h : Spec.SigHash.parse p = none) (s : Script.Stack) :
+    Script.evalScript O tx flags p stack sv ed ≠ .ok s :=
+  Proofs.C02T.evalScript_bad O tx flags p stack sv ed ((decoders_agree p).mp h) s
+
+/-- … at an instruction boundary: if the executed script is `pre ++ sc` where `pre` consists of well-formed
+    operations (e.g. everything up to and including the last executed OP_CODESEPARATOR) and the script code `sc`
+    does not decode — the only place where gocoin's `break` (tail dropped) and the original serializer (part of
+    the tail kept) can produce different preimages, and where `Spec.legacy` is undefined — then the evaluation of
+    the whole script is already not `ok`: the difference cannot change a verdict. -/
+theorem tail_irrelevant_at_boundary (O : Script.Oracles) (tx : Script.TxCtx) (flags : Nat) (pre sc : Bytes)
+    (ops : List Bytes) (stack : Script.Stack) (sv : Script.SigVersion) (ed : Script.ExecData)
+    (hpre : Spec.SigHash.parse pre = some ops) (hsc : Spec.SigHash.parse sc = none) (s : Script.Stack) :
+    Script.evalScript O tx flags (pre ++ sc) stack sv ed ≠ .ok s :=
+  tail_irrelevant O tx flags (pre ++ sc) stack sv ed (Proofs.C02D.parse_append_bad pre sc ops hpre hsc) s
+
+/-- non-vacuity (kernel-checked): `OP_1 <push of 2 bytes, 1 present>` does not decode for C02's parser (hypothesis
+    of `tail_irrelevant`), `Spec.legacy` is undefined on it, C01's parser reports the decode error too, and
+    gocoin's `SignatureHash` model still returns a digest for it as script code (the tail is dropped) -/
+example : Spec.SigHash.parse [0x51, 0x02, 0x01] = none ∧ (ScriptSpec.parse [0x51, 0x02, 0x01]).2 = true ∧
+    Spec.SigHash.legacy exTx0 [0x51, 0x02, 0x01] 0 1 = none := by decide
+example : ∃ pre d, signatureHash (fun b => b) exTx0 [0x51, 0x02, 0x01] 0 1 = .hashed pre d := ⟨_, _, rfl⟩
+/-- … and the hypotheses of `tail_irrelevant_at_boundary`: `OP_1 OP_CODESEPARATOR` ++ `<truncated PUSHDATA1>` -/
+example : Spec.SigHash.parse [0x51, 0xab] = some [[0x51], [0xab]] ∧ Spec.SigHash.parse [0x4c] = none := by decide
 
 /-- Signature removal: for every script code that decodes into operations and every signature (any
     length: direct push below 76 bytes, PUSHDATA1 for 76..255, PUSHDATA2 for 256..65535, PUSHDATA4 above),
